@@ -64,10 +64,9 @@ CHECKS = {
                      "The translator lists every syntactic site where a set is iterated, popped, unpacked or converted (22 today) on every run; each must be in the audited table with its justification, so removing a sorted() or adding a set iteration leaves the proof no longer covering the code. "
                      "The real pipeline is run in separate processes under 4 (quick) / 32 (thorough) hash seeds on closed CFGs with hash-sensitive names, source programs (incl. regenerated text) and bytecode functions; digests of exact canonical dumps must coincide.", ref="§7 C12",
                 note="Trusted: Lean kernel + standard axioms; the audit's type inference (a missed set use is only visible to the multi-seed runs); justifications of non-sorted sites are arguments except where a theorem is named (work-list fix-point confluence is not proved; its result is compared with an order-free definition in C13)."),
-    "C15": dict(cat="translation_validation", tech="Lean 4: verified comparison decider sameHier (sameHier_sound) on exported original vs. re-read graphs for dict and YAML, chains, and continuation of the pipeline on re-read graphs",
-                text="At every stage prefix of the real pipeline on every generated closed CFG (and a bytecode graph) the graph is written and re-read through to_dict/from_dict and to_yaml/from_yaml; Scfg.C15.sameHier_sound proves that a true answer of the Lean decider means entry-by-entry equality of every field the property lists; "
-                     "the second dictionary must equal the first, write-read-write-read must be stable, and the next pipeline stage runs on the re-read graph.", ref="§7 C15",
-                note="Trusted: Lean kernel + standard axioms; exporter; PyYAML. No Lean model of the reader/writer yet: the quantifier over graphs is by enumeration."),
+    "C15": dict(cat="proof", tech="Lean 4: round-trip theorem io_roundtrip about the model of SCFGIO.to_dict / from_dict for every hierarchy meeting the decidable hypothesis ioReady (evaluated on every real stage graph) + exact-dump correspondence of that model with the code + verified comparison decider sameHier on real re-read graphs (dict and YAML)",
+                text="Scfg/Model/IO.lean models the writer (work-list over blocks and sub-regions, per-type fields) and the reader (outer-graph discovery, breadth-first make_scfg that stops at the exiting block, recursive region construction, recorded name of the outermost region). Scfg.C15.io_roundtrip proves for EVERY hierarchy satisfying IOReady (unique names, normal-form blocks, region headers inside, only exiting blocks naming anything outside their level, every member reachable from its header): whenever writer and reader answer, the graph read back holds exactly the original blocks - container, type, ordered successors, back edges, payload, value table, variable, assignments, kind, header, exiting, parent - under the same container name (with blk_roundtrip, toDict_sound/complete/keys_nodup, makeScfg_exact for all hierarchies / dictionaries). ioReady_sound ties the Boolean the harness evaluates on every real stage graph to that hypothesis. The model is compared with the real to_dict (entry order included) and from_dict on every stage graph; in addition the real re-read graphs (dict and YAML, chains, pipeline continued on the re-read graph) are judged by sameHier (sameHier_sound).", ref="§0.3 C15",
+                note="Trusted: Lean kernel + standard axioms; exporter and the dictionary encoder in harness/props/c15.py; PyYAML (YAML text is checked per instance, not modelled). The theorem is about the model; it does not show that the reader never aborts (abort sites are part of the compared dump). Dictionaries with keys that do not belong to a block's type, and graphs with PythonASTBlock payloads (known finding), are outside the modelled domain."),
     "C17": dict(cat="translation_validation", tech="Lean 4: drawing specification specDrawing/drawingOK with soundness theorem, evaluated on the drawing parsed from the real DOT source of every stage output",
                 text="The real SCFGRenderer / ByteFlowRenderer output for every stage of every generated closed CFG (and bytecode graphs) is parsed and judged by Scfg.Spec.drawingOK: nodes, nested clusters and solid/dashed edges with header-resolved destinations must equal, as multisets, what specDrawing prescribes (Scfg.C17.drawingOK_sound, spec_nodes, spec_clusters); labels are checked for each required field.", ref="§7 C17",
                 note="Trusted: Lean kernel + standard axioms; exporter; the graphviz package's DOT printer; harness/dot.py. No Lean model of the renderer's control flow: the quantifier over graphs is by enumeration."),
